@@ -6,49 +6,56 @@ namespace PySMT.Opt
 open PySMT.OptSpec
 
 section
-variable {M : Type} {A : M → Prop} {obj : Nat → M → Int} {o : Oracle M}
+variable {M : Type} {A : M → Prop} {val : Nat → M → Val} {obj : Nat → M → Int} {o : Oracle M}
 
 /-! ### meaning of the Pareto constraints -/
 
-theorem ns_atoms_hold (goals : List (Nat × Goal)) (p m : M) :
-    (∀ c ∈ (paretoAtoms obj false goals p).map Constraint.atom, c.holds obj m = true) ↔
+theorem ns_atoms_hold {goals : List (Nat × Goal)} (hG : ∀ q ∈ goals, GoalReadsAll val obj q.2 q.1) (p m : M) :
+    (∀ c ∈ (paretoAtoms obj false goals p).map Constraint.atom, c.holds val m = true) ↔
       WeakDom (specGoals obj goals) m p := by
   unfold paretoAtoms specGoals WeakDom
   simp only [List.mem_map, forall_exists_index, and_imp, forall_apply_eq_imp_iff₂, Bool.false_eq_true, if_false]
+  have hb : ∀ q ∈ goals, castOk q.2.dom (obj q.1 p) = true := fun q hq => by
+    rw [(hG q hq p).2]; exact castOk_readObj _ _ (hG q hq p).1
   constructor
   · intro h q hq
     have := h q hq
     simp only [Constraint.holds] at this
-    exact (sense_le q.2 _ _).2 ((ns_atom_holds obj m q.2 q.1 q.2.dom _).1 this)
+    exact (sense_le q.2 _ _).2 ((ns_atom_holds val obj m q.2 q.1 _ (hG q hq m).1 (hG q hq m).2 (hb q hq)).1 this)
   · intro h q hq
     simp only [Constraint.holds]
-    exact (ns_atom_holds obj m q.2 q.1 q.2.dom _).2 ((sense_le q.2 _ _).1 (h q hq))
+    exact (ns_atom_holds val obj m q.2 q.1 _ (hG q hq m).1 (hG q hq m).2 (hb q hq)).2 ((sense_le q.2 _ _).1 (h q hq))
 
-theorem strict_disj_holds (goals : List (Nat × Goal)) (p m : M) :
-    (Constraint.disj (paretoAtoms obj true goals p)).holds obj m = true ↔
+theorem strict_disj_holds {goals : List (Nat × Goal)} (hG : ∀ q ∈ goals, GoalReadsAll val obj q.2 q.1) (p m : M) :
+    (Constraint.disj (paretoAtoms obj true goals p)).holds val m = true ↔
       StrictSome (specGoals obj goals) m p := by
   unfold paretoAtoms specGoals StrictSome
   simp only [Constraint.holds, List.any_eq_true, List.mem_map, if_true]
+  have hb : ∀ q ∈ goals, castOk q.2.dom (obj q.1 p) = true := fun q hq => by
+    rw [(hG q hq p).2]; exact castOk_readObj _ _ (hG q hq p).1
   constructor
   · rintro ⟨a, ⟨q, hq, rfl⟩, h⟩
     refine ⟨_, ⟨q, hq, rfl⟩, (sense_lt q.2 _ _).2 ?_⟩
-    exact (strict_atom_holds obj m q.2 q.1 q.2.dom (obj q.1 p)).1 (by simpa [Constraint.holds] using h)
+    exact (strict_atom_holds val obj m q.2 q.1 (obj q.1 p) (hG q hq m).1 (hG q hq m).2 (hb q hq)).1
+      (by simpa [Constraint.holds] using h)
   · rintro ⟨gq, ⟨q, hq, rfl⟩, h⟩
     refine ⟨_, ⟨q, hq, rfl⟩, ?_⟩
-    have := (strict_atom_holds obj m q.2 q.1 q.2.dom (obj q.1 p)).2 ((sense_lt q.2 _ _).1 h)
+    have := (strict_atom_holds val obj m q.2 q.1 (obj q.1 p) (hG q hq m).1 (hG q hq m).2 (hb q hq)).2
+      ((sense_lt q.2 _ _).1 h)
     simpa [Constraint.holds] using this
 
 /-- `m` dominates the last model (no condition when there is none yet) -/
 def DomLast (gs : List (Sense × (M → Int))) (last : Option M) (m : M) : Prop :=
   ∀ p, last = some p → Dominates gs m p
 
-theorem stepCs_hold (goals : List (Nat × Goal)) (last : Option M) (m : M) :
-    (∀ c ∈ paretoStepCs obj goals last, c.holds obj m = true) ↔ DomLast (specGoals obj goals) last m := by
+theorem stepCs_hold {goals : List (Nat × Goal)} (hG : ∀ q ∈ goals, GoalReadsAll val obj q.2 q.1)
+    (last : Option M) (m : M) :
+    (∀ c ∈ paretoStepCs obj goals last, c.holds val m = true) ↔ DomLast (specGoals obj goals) last m := by
   cases last with
   | none => simp [paretoStepCs, DomLast]
   | some p =>
     simp only [paretoStepCs, DomLast, Option.some.injEq, forall_eq', Dominates]
-    rw [← ns_atoms_hold, ← strict_disj_holds]
+    rw [← ns_atoms_hold hG, ← strict_disj_holds hG]
     constructor
     · intro h
       exact ⟨fun c hc => h c (by simp at hc ⊢; exact Or.inl hc), h _ (by simp)⟩
@@ -73,26 +80,27 @@ theorem Dominates.trans {gs : List (Sense × (M → Int))} {a b c : M}
 
 /-- solver state inside the inner loop: whatever has been asserted since its start is implied by
     "dominates the last model" -/
-def IInv (A : M → Prop) (obj : Nat → M → Int) (goals : List (Nat × Goal)) (outer cdE : List Constraint)
+def IInv (A : M → Prop) (val : Nat → M → Val) (obj : Nat → M → Int) (goals : List (Nat × Goal)) (outer cdE : List Constraint)
     (mk : List Nat) (bd : Bool) (last : Option M) (s : Solver M) : Prop :=
   s.marks = mk ∧ s.bad = bd ∧ ∃ added, s.stack = outer ++ added ∧
-    ∀ c ∈ added, ∀ m, Feas A obj outer cdE m → DomLast (specGoals obj goals) last m → c.holds obj m = true
+    ∀ c ∈ added, ∀ m, Feas A val outer cdE m → DomLast (specGoals obj goals) last m → c.holds val m = true
 
-def InnerPost (A : M → Prop) (obj : Nat → M → Int) (goals : List (Nat × Goal)) (outer cdE : List Constraint)
+def InnerPost (A : M → Prop) (val : Nat → M → Val) (obj : Nat → M → Int) (goals : List (Nat × Goal)) (outer cdE : List Constraint)
     (mk : List Nat) (bd : Bool) (r : Outcome (Option M) × Solver M) : Prop :=
   r.1 = .fuel ∨
   ∃ fin, r.1 = .done fin ∧
-    (∀ p, fin = some p → Feas A obj outer cdE p ∧
-      ∀ m, Feas A obj outer cdE m → ¬ Dominates (specGoals obj goals) m p) ∧
-    (fin = none → ∀ m, ¬ Feas A obj outer cdE m) ∧
+    (∀ p, fin = some p → Feas A val outer cdE p ∧
+      ∀ m, Feas A val outer cdE m → ¬ Dominates (specGoals obj goals) m p) ∧
+    (fin = none → ∀ m, ¬ Feas A val outer cdE m) ∧
     r.2.marks = mk ∧ r.2.bad = bd ∧ ∃ added, r.2.stack = outer ++ added
 
-theorem paretoInner_spec (hO : OracleSpec A obj o) (mx : Mixin) (goals : List (Nat × Goal))
+theorem paretoInner_spec (hO : OracleSpec A val o) (mx : Mixin) (goals : List (Nat × Goal))
+    (hG : ∀ q ∈ goals, GoalReadsAll val obj q.2 q.1)
     (cd outer : List Constraint) (mk : List Nat) (bd : Bool) :
     ∀ (n : Nat) (last : Option M) (s : Solver M),
-      IInv A obj goals outer (effExtra mx cd) mk bd last s →
-      (∀ p, last = some p → Feas A obj outer (effExtra mx cd) p) →
-      InnerPost A obj goals outer (effExtra mx cd) mk bd (paretoInner o obj mx goals cd n last s) := by
+      IInv A val obj goals outer (effExtra mx cd) mk bd last s →
+      (∀ p, last = some p → Feas A val outer (effExtra mx cd) p) →
+      InnerPost A val obj goals outer (effExtra mx cd) mk bd (paretoInner o obj mx goals cd n last s) := by
   intro n
   induction n with
   | zero => intro last s _ _; exact Or.inl rfl
@@ -101,15 +109,15 @@ theorem paretoInner_spec (hO : OracleSpec A obj o) (mx : Mixin) (goals : List (N
     obtain ⟨h1, h2, added, h3, h4⟩ := hI
     have key : ∀ (nn : Nat) (cs : List Constraint),
         (∀ c, c ∈ cs ↔ (c ∈ outer ∨ c ∈ added ∨ c ∈ effExtra mx cd ∨ c ∈ paretoStepCs obj goals last)) →
-        (∀ m, o nn cs = some m → Feas A obj outer (effExtra mx cd) m ∧ DomLast (specGoals obj goals) last m) ∧
-        (o nn cs = none → ∀ m, Feas A obj outer (effExtra mx cd) m → ¬ DomLast (specGoals obj goals) last m) := by
+        (∀ m, o nn cs = some m → Feas A val outer (effExtra mx cd) m ∧ DomLast (specGoals obj goals) last m) ∧
+        (o nn cs = none → ∀ m, Feas A val outer (effExtra mx cd) m → ¬ DomLast (specGoals obj goals) last m) := by
       intro nn cs hcs
       refine ⟨?_, ?_⟩
       · intro m hm
         obtain ⟨ha, hc⟩ := (hO nn cs).1 m hm
         refine ⟨⟨ha, fun c hc' => hc c ((hcs c).2 (Or.inl hc')),
           fun c hc' => hc c ((hcs c).2 (Or.inr (Or.inr (Or.inl hc'))))⟩, ?_⟩
-        exact (stepCs_hold goals last m).1 (fun c hc' => hc c ((hcs c).2 (Or.inr (Or.inr (Or.inr hc')))))
+        exact (stepCs_hold hG last m).1 (fun c hc' => hc c ((hcs c).2 (Or.inr (Or.inr (Or.inr hc')))))
       · intro hn m hm hd
         refine (hO nn cs).2 hn m hm.1 ?_
         intro c hc
@@ -117,16 +125,16 @@ theorem paretoInner_spec (hO : OracleSpec A obj o) (mx : Mixin) (goals : List (N
         · exact hm.2.1 c hc
         · exact h4 c hc m hm hd
         · exact hm.2.2 c hc
-        · exact (stepCs_hold goals last m).2 hd c hc
+        · exact (stepCs_hold hG last m).2 hd c hc
     -- the two mix-ins differ only in where the step constraints go
     have common : ∀ (r : Option M) (s1 : Solver M) (added' : List Constraint),
-        ((∀ m, r = some m → Feas A obj outer (effExtra mx cd) m ∧ DomLast (specGoals obj goals) last m) ∧
-         (r = none → ∀ m, Feas A obj outer (effExtra mx cd) m → ¬ DomLast (specGoals obj goals) last m)) →
+        ((∀ m, r = some m → Feas A val outer (effExtra mx cd) m ∧ DomLast (specGoals obj goals) last m) ∧
+         (r = none → ∀ m, Feas A val outer (effExtra mx cd) m → ¬ DomLast (specGoals obj goals) last m)) →
         s1.marks = mk → s1.bad = bd → s1.stack = outer ++ added' →
         (∀ c ∈ added', c ∈ added ∨ c ∈ paretoStepCs obj goals last) →
-        (r = none → InnerPost A obj goals outer (effExtra mx cd) mk bd (Outcome.done last, s1)) ∧
+        (r = none → InnerPost A val obj goals outer (effExtra mx cd) mk bd (Outcome.done last, s1)) ∧
         (∀ m, r = some m →
-          InnerPost A obj goals outer (effExtra mx cd) mk bd (paretoInner o obj mx goals cd n (some m) s1)) := by
+          InnerPost A val obj goals outer (effExtra mx cd) mk bd (paretoInner o obj mx goals cd n (some m) s1)) := by
       intro r s1 added' hk e1 e2 e3 hsub
       refine ⟨?_, ?_⟩
       · intro hr
@@ -147,7 +155,7 @@ theorem paretoInner_spec (hO : OracleSpec A obj o) (mx : Mixin) (goals : List (N
           exact Dominates.trans (hd' m rfl) (hdm p hp)
         rcases hsub c hc with hc | hc
         · exact h4 c hc m' hm' hd''
-        · exact (stepCs_hold goals last m').2 hd'' c hc
+        · exact (stepCs_hold hG last m').2 hd'' c hc
     cases mx with
     | sua =>
       have hk := key s.calls (s.stack ++ (cd ++ paretoStepCs obj goals last)) (by
@@ -199,17 +207,18 @@ def accOf (obj : Nat → M → Int) (goals : List (Nat × Goal)) (found : List M
   found.map (fun p => (p, goals.map (fun (gi, _) => obj gi p)))
 
 /-- feasible and strictly better than every model found so far on some objective -/
-def FeasB (A : M → Prop) (obj : Nat → M → Int) (goals : List (Nat × Goal)) (base : List Constraint)
+def FeasB (A : M → Prop) (val : Nat → M → Val) (obj : Nat → M → Int) (goals : List (Nat × Goal)) (base : List Constraint)
     (found : List M) (m : M) : Prop :=
-  Feas A obj base [] m ∧ ∀ p ∈ found, StrictSome (specGoals obj goals) m p
+  Feas A val base [] m ∧ ∀ p ∈ found, StrictSome (specGoals obj goals) m p
 
-theorem blocks_hold (goals : List (Nat × Goal)) (found : List M) (m : M) :
-    (∀ c ∈ blocks obj goals found, c.holds obj m = true) ↔ ∀ p ∈ found, StrictSome (specGoals obj goals) m p := by
+theorem blocks_hold {goals : List (Nat × Goal)} (hG : ∀ q ∈ goals, GoalReadsAll val obj q.2 q.1)
+    (found : List M) (m : M) :
+    (∀ c ∈ blocks obj goals found, c.holds val m = true) ↔ ∀ p ∈ found, StrictSome (specGoals obj goals) m p := by
   unfold blocks
   simp only [List.mem_map, forall_exists_index, and_imp, forall_apply_eq_imp_iff₂]
   constructor
-  · intro h p hp; exact (strict_disj_holds goals p m).1 (h p hp)
-  · intro h p hp; exact (strict_disj_holds goals p m).2 (h p hp)
+  · intro h p hp; exact (strict_disj_holds hG p m).1 (h p hp)
+  · intro h p hp; exact (strict_disj_holds hG p m).2 (h p hp)
 
 theorem pop_of_marks (s : Solver M) (k : Nat) (ms : List Nat) (h : s.marks = k :: ms) :
     s.pop.stack = s.stack.take k ∧ s.pop.marks = ms ∧ s.pop.bad = s.bad := by
@@ -223,16 +232,16 @@ def OuterSt (obj : Nat → M → Int) (goals : List (Nat × Goal)) (mx : Mixin) 
   | .sua => cd = blocks obj goals found ∧ s.stack = base
   | .incr => s.stack = base ++ blocks obj goals found
 
-theorem feasB_iff {goals : List (Nat × Goal)} {mx : Mixin} {base : List Constraint} {marks0 : List Nat}
+theorem feasB_iff {goals : List (Nat × Goal)} (hG : ∀ q ∈ goals, GoalReadsAll val obj q.2 q.1) {mx : Mixin} {base : List Constraint} {marks0 : List Nat}
     {bad0 : Bool} {found : List M} {cd : List Constraint} {s : Solver M}
     (h : OuterSt obj goals mx base marks0 bad0 found cd s) (m : M) :
-    Feas A obj s.stack (effExtra mx cd) m ↔ FeasB A obj goals base found m := by
+    Feas A val s.stack (effExtra mx cd) m ↔ FeasB A val obj goals base found m := by
   obtain ⟨_, _, h3⟩ := h
   cases mx with
   | sua =>
     obtain ⟨hcd, hst⟩ := h3
     simp only [effExtra, hcd, hst, FeasB, Feas]
-    rw [blocks_hold]
+    rw [blocks_hold hG]
     constructor
     · rintro ⟨a, b, c⟩; exact ⟨⟨a, b, by simp⟩, c⟩
     · rintro ⟨⟨a, b, _⟩, c⟩; exact ⟨a, b, c⟩
@@ -241,7 +250,7 @@ theorem feasB_iff {goals : List (Nat × Goal)} {mx : Mixin} {base : List Constra
     simp only [effExtra, h3]
     rw [Feas_append]
     simp only [FeasB, Feas]
-    rw [blocks_hold]
+    rw [blocks_hold hG]
     constructor
     · rintro ⟨a, b, c⟩; exact ⟨⟨a, b, by simp⟩, c⟩
     · rintro ⟨⟨a, b, _⟩, c⟩; exact ⟨a, b, c⟩
@@ -276,9 +285,9 @@ theorem Sense.eq_of_le_not_lt (d : Sense) {a b : Int} (h1 : d.le a b) (h2 : ¬ d
 
 /-- a model that nothing in `FeasB` dominates is Pareto-optimal among all feasible models -/
 theorem pareto_of_inner {goals : List (Nat × Goal)} {base : List Constraint} {found : List M} {p : M}
-    (hp : FeasB A obj goals base found p)
-    (hnd : ∀ m, FeasB A obj goals base found m → ¬ Dominates (specGoals obj goals) m p) :
-    ParetoOptimal (specGoals obj goals) (Feas A obj base []) p := by
+    (hp : FeasB A val obj goals base found p)
+    (hnd : ∀ m, FeasB A val obj goals base found m → ¬ Dominates (specGoals obj goals) m p) :
+    ParetoOptimal (specGoals obj goals) (Feas A val base []) p := by
   refine ⟨hp.1, ?_⟩
   rintro ⟨q, hq, hd⟩
   refine hnd q ⟨hq, ?_⟩ hd
@@ -290,9 +299,9 @@ theorem pareto_of_inner {goals : List (Nat × Goal)} {base : List Constraint} {f
 
 /-- the front is complete once nothing feasible escapes the blocking clauses -/
 theorem front_complete {goals : List (Nat × Goal)} {base : List Constraint} {found : List M}
-    (hfound : ∀ p ∈ found, ParetoOptimal (specGoals obj goals) (Feas A obj base []) p)
-    (hnone : ∀ m, ¬ FeasB A obj goals base found m)
-    (m : M) (hm : ParetoOptimal (specGoals obj goals) (Feas A obj base []) m) :
+    (hfound : ∀ p ∈ found, ParetoOptimal (specGoals obj goals) (Feas A val base []) p)
+    (hnone : ∀ m, ¬ FeasB A val obj goals base found m)
+    (m : M) (hm : ParetoOptimal (specGoals obj goals) (Feas A val base []) m) :
     ∃ p ∈ found, costs (specGoals obj goals) p = costs (specGoals obj goals) m := by
   have h1 : ¬ ∀ p ∈ found, StrictSome (specGoals obj goals) m p := fun h => hnone m ⟨hm.1, h⟩
   have h2 : ∃ r, r ∈ found ∧ ¬ StrictSome (specGoals obj goals) m r := by
@@ -314,32 +323,33 @@ theorem front_complete {goals : List (Nat × Goal)} {base : List Constraint} {fo
 
 /-- the yielded models are Pareto-optimal, have pairwise different cost vectors, and every
     Pareto-optimal cost vector is among them -/
-def FrontOk (A : M → Prop) (obj : Nat → M → Int) (goals : List (Nat × Goal)) (base : List Constraint)
+def FrontOk (A : M → Prop) (val : Nat → M → Val) (obj : Nat → M → Int) (goals : List (Nat × Goal)) (base : List Constraint)
     (found : List M) : Prop :=
-  (∀ p ∈ found, ParetoOptimal (specGoals obj goals) (Feas A obj base []) p) ∧
+  (∀ p ∈ found, ParetoOptimal (specGoals obj goals) (Feas A val base []) p) ∧
   found.Pairwise (fun a b => costs (specGoals obj goals) a ≠ costs (specGoals obj goals) b) ∧
-  (∀ m, ParetoOptimal (specGoals obj goals) (Feas A obj base []) m →
+  (∀ m, ParetoOptimal (specGoals obj goals) (Feas A val base []) m →
     ∃ p ∈ found, costs (specGoals obj goals) p = costs (specGoals obj goals) m)
 
-def OuterPost (A : M → Prop) (obj : Nat → M → Int) (goals : List (Nat × Goal)) (base : List Constraint)
+def OuterPost (A : M → Prop) (val : Nat → M → Val) (obj : Nat → M → Int) (goals : List (Nat × Goal)) (base : List Constraint)
     (marks0 : List Nat) (bad0 : Bool) (r : Outcome (List (M × List Int)) × Solver M) : Prop :=
   r.1 = .fuel ∨
   ∃ found, r.1 = .done (accOf obj goals found) ∧ r.2.stack = base ∧ r.2.marks = marks0 ∧ r.2.bad = bad0 ∧
-    FrontOk A obj goals base found
+    FrontOk A val obj goals base found
 
-theorem paretoOuter_spec (hO : OracleSpec A obj o) (mx : Mixin) (goals : List (Nat × Goal)) (fuel : Nat)
+theorem paretoOuter_spec (hO : OracleSpec A val o) (mx : Mixin) (goals : List (Nat × Goal))
+    (hG : ∀ q ∈ goals, GoalReadsAll val obj q.2 q.1) (fuel : Nat)
     (base : List Constraint) (marks0 : List Nat) (bad0 : Bool) :
     ∀ (n : Nat) (found : List M) (cd : List Constraint) (s : Solver M),
       OuterSt obj goals mx base marks0 bad0 found cd s →
-      (∀ p ∈ found, ParetoOptimal (specGoals obj goals) (Feas A obj base []) p) →
+      (∀ p ∈ found, ParetoOptimal (specGoals obj goals) (Feas A val base []) p) →
       found.Pairwise (fun a b => costs (specGoals obj goals) a ≠ costs (specGoals obj goals) b) →
-      OuterPost A obj goals base marks0 bad0 (paretoOuter o obj mx goals fuel n cd (accOf obj goals found) s) := by
+      OuterPost A val obj goals base marks0 bad0 (paretoOuter o obj mx goals fuel n cd (accOf obj goals found) s) := by
   intro n
   induction n with
   | zero => intro found cd s _ _ _; exact Or.inl rfl
   | succ n ih =>
     intro found cd s hst hpo hpw
-    have hinner := paretoInner_spec hO mx goals cd s.stack (s.stack.length :: s.marks) s.bad fuel none s.push
+    have hinner := paretoInner_spec hO mx goals hG cd s.stack (s.stack.length :: s.marks) s.bad fuel none s.push
       ⟨rfl, rfl, [], by simp [Solver.push], by simp⟩ (fun p h => by cases h)
     unfold paretoOuter
     cases hr : paretoInner o obj mx goals cd fuel none s.push with
@@ -356,8 +366,8 @@ theorem paretoOuter_spec (hO : OracleSpec A obj o) (mx : Mixin) (goals : List (N
       cases fin with
       | none =>
         right
-        have hno : ∀ m, ¬ FeasB A obj goals base found m := fun m hm =>
-          hnone rfl m ((feasB_iff ⟨m1, m2, m3⟩ m).2 hm)
+        have hno : ∀ m, ¬ FeasB A val obj goals base found m := fun m hm =>
+          hnone rfl m ((feasB_iff hG ⟨m1, m2, m3⟩ m).2 hm)
         obtain ⟨q1, q2, q3⟩ := pop_of_marks s2.pop base.length marks0 (by rw [p2, m1])
         refine ⟨found, rfl, ?_, q2, by rw [q3, p3, m2], hpo, hpw, front_complete hpo hno⟩
         rw [q1, p1]
@@ -366,10 +376,10 @@ theorem paretoOuter_spec (hO : OracleSpec A obj o) (mx : Mixin) (goals : List (N
         | incr => simp only at m3; rw [m3]; exact take_length_append _ _
       | some p =>
         obtain ⟨hfp, hnd⟩ := hsome p rfl
-        have hfpB : FeasB A obj goals base found p := (feasB_iff ⟨m1, m2, m3⟩ p).1 hfp
-        have hpar : ParetoOptimal (specGoals obj goals) (Feas A obj base []) p :=
-          pareto_of_inner hfpB (fun m hm => hnd m ((feasB_iff ⟨m1, m2, m3⟩ m).2 hm))
-        have hpo' : ∀ q ∈ found ++ [p], ParetoOptimal (specGoals obj goals) (Feas A obj base []) q := by
+        have hfpB : FeasB A val obj goals base found p := (feasB_iff hG ⟨m1, m2, m3⟩ p).1 hfp
+        have hpar : ParetoOptimal (specGoals obj goals) (Feas A val base []) p :=
+          pareto_of_inner hfpB (fun m hm => hnd m ((feasB_iff hG ⟨m1, m2, m3⟩ m).2 hm))
+        have hpo' : ∀ q ∈ found ++ [p], ParetoOptimal (specGoals obj goals) (Feas A val base []) q := by
           intro q hq
           rcases List.mem_append.1 hq with hq | hq
           · exact hpo q hq
@@ -403,9 +413,10 @@ theorem paretoOuter_spec (hO : OracleSpec A obj o) (mx : Mixin) (goals : List (N
             hpo' hpw'
 
 /-- `list(pareto_optimize(goals))` -/
-theorem pareto_spec (hO : OracleSpec A obj o) (mx : Mixin) (goals : List (Nat × Goal)) (fuel : Nat)
+theorem pareto_spec (hO : OracleSpec A val o) (mx : Mixin) (goals : List (Nat × Goal))
+    (hG : ∀ q ∈ goals, GoalReadsAll val obj q.2 q.1) (fuel : Nat)
     (hsup : ∀ p ∈ goals, p.2.supported = true) (hne : goals ≠ []) (s : Solver M) :
-    OuterPost A obj goals s.stack s.marks s.bad (pareto o obj mx goals fuel s) := by
+    OuterPost A val obj goals s.stack s.marks s.bad (pareto o obj mx goals fuel s) := by
   unfold pareto
   have h1 : goals.any (fun (x : Nat × Goal) => !x.2.supported) = false := by
     rw [List.any_eq_false]
@@ -416,7 +427,7 @@ theorem pareto_spec (hO : OracleSpec A obj o) (mx : Mixin) (goals : List (Nat ×
     | nil => exact absurd rfl hne
     | cons _ _ => rfl
   simp only [h1, h2, Bool.false_eq_true, if_false]
-  have := paretoOuter_spec hO mx goals fuel s.stack s.marks s.bad fuel [] [] s.push
+  have := paretoOuter_spec hO mx goals hG fuel s.stack s.marks s.bad fuel [] [] s.push
     ⟨rfl, rfl, by cases mx <;> simp [blocks, Solver.push]⟩ (by simp) List.Pairwise.nil
   simpa [accOf] using this
 
